@@ -55,6 +55,31 @@ def gen_fills(tier, seed):
                         yield {"edges": list(edges), "batches": batches, "entries": list(entries), "order": list(order), "read_between": bool(oi % 2)}
 
 
+def gen_scales(tier, seed):
+    for edges in ([0.0, 1e-9, 2e-9, 3e-9, 4e-9], [0.0, 50000.0, 99999.5, 100000.0], [0.0, 1.0, 1.0 + 1e-9, 1.0 + 2e-9], [-4e-10, -1e-10, 0.0, 5e-10], [1e12, 1e12 + 1.0, 1e12 + 2.0]):
+        lo, hi = edges[0], edges[-1]
+        w = hi - lo
+        entries = [lo - 0.3 * w] + [0.5 * (a_ + b_) for a_, b_ in zip(edges[:-1], edges[1:])] + [edges[1], edges[-2], hi, hi + 0.2 * w, lo]
+        for batches in ([len(entries)], [3, len(entries) - 3]):
+            yield {"edges": edges, "entries": entries, "batches": batches}
+
+
+@R.oracle("bins_are_exact_at_every_scale", gen_scales, obligation="HistContainer._fill_unprocessed")
+def scales(inp):
+    """the half-open bins are decided by exact comparisons: edges that are tiny, huge or close together are edges like any other"""
+    edges, entries = inp["edges"], inp["entries"]
+    h = HistContainer(n_bins=len(edges) - 1, bin_range=(edges[0], edges[-1]), bin_edges=list(edges))
+    pos = 0
+    for b in inp["batches"]:
+        h.fill(list(entries[pos:pos + b])); pos += b
+        _ = h.data
+    got = {o: OBS[o](h) for o in ("data", "underflow", "overflow")}
+    exp = expected(entries, edges)
+    bad = [o for o in got if got[o] != exp[o]]
+    if bad:
+        return {"got": {o: got[o] for o in bad}, "expected": {o: exp[o] for o in bad}, "witness_class": "scale:" + bad[0]}
+
+
 @R.oracle("observers_after_fills", gen_fills, obligation="HistContainer.")
 def observers_after_fills(inp):
     edges, entries = inp["edges"], inp["entries"]
